@@ -69,6 +69,51 @@ def gen(rng, tier):
         mem = [c.name for c in Cip1852Coins][i % len(Cip1852Coins)]
         seed = rand_seed(rng)
         yield Case("shelley", [mem, hx(seed), rng.choice([0, 1, rng.getrandbits(31)]), rng.randrange(2), rng.choice([0, 1, rng.getrandbits(31)])], "shelley")
+    # directed, output-dependent: hardened children whose new right half kR' = kR + ZR mod 2^256, or whose chain code, has a zero
+    # top byte (fixed-width serialisation), found with an independent HMAC computation from the master key
+    import hmac, hashlib
+    for i in range(6 if tier == "quick" else 120):
+        kind = ("kholaw", "icarus")[i % 2]
+        seed = bytes(rng.randrange(256) for _ in range(32))
+        m = KH[kind].FromSeed(seed)
+        kb, cc = m.PrivateKey().Raw().ToBytes(), m.ChainCode().ToBytes()
+        kr = int.from_bytes(kb[32:], "little")
+        start = 2**31 + rng.getrandbits(30)
+        found = 0
+        for idx in range(start, start + 3000):
+            ib = idx.to_bytes(4, "little")
+            z = hmac.new(cc, b"\x00" + kb + ib, hashlib.sha512).digest()
+            c2 = hmac.new(cc, b"\x01" + kb + ib, hashlib.sha512).digest()[32:]
+            kr2 = (kr + int.from_bytes(z[32:], "little")) % 2**256
+            if kr2 < 2**248 or c2[0] == 0 or c2[-1] == 0:
+                yield Case("kholawderive", [kind, hx(seed), nats([idx]), 1], "child-leading-zero")
+                found += 1
+                if found == 2:
+                    break
+    # directed: Shelley payment keys whose 32-byte encoding starts (or ends) with a zero byte
+    for i in range(3 if tier == "quick" else 40):
+        mem = [c.name for c in Cip1852Coins][i % len(Cip1852Coins)]
+        seed = rand_seed(rng)
+        acc = Cip1852.FromSeed(seed, Cip1852Coins[mem]).Purpose().Coin().Account(0)
+        ch = acc.Change(Bip44Changes.CHAIN_EXT)
+        found = 0
+        for ix in range(0, 2500):
+            pub = ch.AddressIndex(ix).PublicKey().RawCompressed().ToBytes()[1:]
+            if pub[0] == 0 or pub[-1] == 0:
+                yield Case("shelley", [mem, hx(seed), 0, 0, ix], "shelley-leading-zero")
+                found += 1
+                if found == 2:
+                    break
+    # directed: staking keys (account/2/0) starting with a zero byte — vary the account
+    for i in range(1 if tier == "quick" else 12):
+        mem = [c.name for c in Cip1852Coins][i % len(Cip1852Coins)]
+        seed = rand_seed(rng)
+        coin = Cip1852.FromSeed(seed, Cip1852Coins[mem]).Purpose().Coin()
+        for a in range(0, 1500):
+            pub = coin.Account(a).Bip32Object().ChildKey(2).ChildKey(0).PublicKey().RawCompressed().ToBytes()[1:]
+            if pub[0] == 0:
+                yield Case("shelley", [mem, hx(seed), a, 0, 0], "shelley-stake-leading-zero")
+                break
     for i in range(6 if tier == "quick" else 100):
         e = bytes(rng.randrange(256) for _ in range(rng.choice([16, 20, 24, 28, 32])))
         yield Case("adaseed", ["legacy", hx(e)], "seed")
